@@ -1211,12 +1211,56 @@ func expandPackage(ctx context.Context, a *APK, pkg InstallablePackage) (*expand
 		return nil, fmt.Errorf("expanding %s: %w", pkg.PackageName(), err)
 	}
 
+	// Nothing so far has compared what we fetched with what we were asked to install.
+	if err := a.verifyExpanded(pkg, exp); err != nil {
+		_ = exp.Close()
+		return nil, fmt.Errorf("verifying %s: %w", pkg.PackageName(), err)
+	}
+
 	// If we don't have a cache, we're done.
 	if a.cache == nil {
 		return exp, nil
 	}
 
 	return a.cachePackage(ctx, pkg, exp, cacheDir)
+}
+
+// verifyExpanded checks a freshly fetched package against what was promised: the control section must
+// have the checksum recorded by the index (or lock file), and the data section must have the datahash
+// recorded in the control section's .PKGINFO.
+func (a *APK) verifyExpanded(pkg InstallablePackage, exp *expandapk.APKExpanded) error {
+	// The checksum is "Q1" + base64(sha1); some callers hand us the bare base64 form.
+	chk := pkg.ChecksumString()
+	want, err := base64.StdEncoding.DecodeString(strings.TrimPrefix(chk, "Q1"))
+	if err != nil {
+		return fmt.Errorf("decoding checksum %q: %w", chk, err)
+	}
+	if !bytes.Equal(want, exp.ControlHash) {
+		return fmt.Errorf("control section checksum mismatch: expected %x, got %x", want, exp.ControlHash)
+	}
+
+	f, err := os.Open(exp.ControlFile)
+	if err != nil {
+		return err
+	}
+	defer f.Close()
+
+	datahash, err := a.datahash(f)
+	if err != nil {
+		return err
+	}
+	if datahash == "" {
+		// Some packages (e.g. our own test fixtures) record an empty datahash: nothing to compare with.
+		return nil
+	}
+	wantData, err := hex.DecodeString(datahash)
+	if err != nil {
+		return fmt.Errorf("decoding datahash %q: %w", datahash, err)
+	}
+	if !bytes.Equal(wantData, exp.PackageHash) {
+		return fmt.Errorf("data section hash mismatch: expected %x, got %x", wantData, exp.PackageHash)
+	}
+	return nil
 }
 
 func packageAsURI(pkg LocatablePackage) (uri.URI, error) {
